@@ -1047,6 +1047,11 @@ def set_power_on_ruv(
         if lower_limit is None:
             theta = Parameter(theta_name, theta_init)
         else:
+            if theta_init < lower_limit:
+                raise ValueError(
+                    f'Lower limit {lower_limit} cannot be greater than the initial estimate '
+                    f'{theta_init} of {theta_name}'
+                )
             theta = Parameter(theta_name, theta_init, lower=lower_limit)
         pset.append(theta)
 
